@@ -22,6 +22,7 @@
                             element is the element last written or the previous disk content
    Examples at the end instantiate every theorem on a world built with exec_all. *)
 From Pnc Require Import Base Gen_consts Header HeaderSpec Access Data Disk Move Fill Exec.
+From Pnc Require Import Proofs_Header Proofs_Fill Proofs_Exec2.
 From Pnc Require Import Proofs_Lists Proofs_Access Proofs_CheckScs Proofs_Layout Proofs_Disk
                         Proofs_RoundTrip.
 Require Import Lia ZArith List Bool ZifyBool.
@@ -1213,3 +1214,191 @@ Proof.
   intros f isput blocking coll a Hsan Hwf Hrs Hx Hdw. apply geom_of_wf; try assumption.
   split; [eapply sanity_var_in; exact Hsan | split; assumption].
 Qed.
+(* ================================================================== *)
+(** * 11. Examples: a world built by the interpreter itself             *)
+(* ================================================================== *)
+Definition run (w : world) (ops : list op) : world :=
+  fold_left (fun w o => fst (exec_all w o)) ops w.
+
+Definition dflt_file : filest :=
+  mkfile (mkhdr 0 0 [] [] []) empty_layout false false false false None false no_align [] 0 false.
+Definition file_at (w : world) (id : Z) : filest :=
+  match znth (w_files w) id None with Some f => f | None => dflt_file end.
+
+(* 2 ranks; CDF-5 file in slot 0; dims t (unlimited), x = 3, y = 4;
+   a : int [x][y] (fixed), r : short [t][y] (record), s : double [t] (record);
+   enddef; independent mode.  Layout: a at 512, r at 560, s at 568, recsize 16. *)
+Definition ex_w : world :=
+  run (world0 2)
+      [OCreate 0 5 1; ODefDim 0 [116] 0; ODefDim 0 [120] 3; ODefDim 0 [121] 4;
+       ODefVar 0 [97] 4 [1; 2]; ODefVar 0 [114] 3 [0; 2]; ODefVar 0 [115] 6 [0];
+       OEnddef 0; OBeginIndep 0].
+Definition ex_f : filest := file_at ex_w 0.
+
+(* put_vars_short on r: records 1 and 3, columns 0 and 2 (a write beyond numrecs = 0) *)
+Definition ex_a : access :=
+  mkacc 1 (FVars (Some [1; 0]) (Some [2; 2]) (Some [2; 2])) 3 false BTyped 7.
+Definition ex_r : rreq := mkrreq [1; 0] [2; 2] (Some [2; 2]) None.
+
+Example ex_file : znth (w_files ex_w) 0 None = Some ex_f.
+Proof. vm_compute. reflexivity. Qed.
+
+Example ex_geom : acc_geom ex_f ex_a = mkgeom 560 2 [0; 4] 16 2.
+Proof. vm_compute. reflexivity. Qed.
+
+Example ex_hdr_wf : hdr_wf (f_hdr ex_f).
+Proof.
+  unfold hdr_wf.
+  assert (E : h_dims (f_hdr ex_f) = [mkdim [116] 0; mkdim [120] 3; mkdim [121] 4])
+    by (vm_compute; reflexivity).
+  rewrite E. repeat constructor; cbn [d_size]; lia.
+Qed.
+
+(* the layout facts are obtained from the invariant, not assumed *)
+Example ex_geom_wf : wf_geom (acc_geom ex_f ex_a) /\ rec_fits (acc_geom ex_f ex_a).
+Proof.
+  apply (acc_geom_wf ex_f true true false ex_a).
+  - vm_compute. reflexivity.
+  - exact ex_hdr_wf.
+  - vm_compute. reflexivity.
+  - vm_compute. reflexivity.
+  - rewrite ex_geom. cbn [g_shape dims_wf]. split; [lia | repeat constructor; lia].
+Qed.
+
+Example ex_put_accepted : put_accepted ex_w ex_f 0 false ex_a ex_r.
+Proof.
+  unfold put_accepted.
+  split; [split; [apply Z.leb_le | apply Z.ltb_lt]; vm_compute; reflexivity|].
+  split; [vm_compute; reflexivity|].
+  split; [vm_compute; reflexivity|].
+  split; [vm_compute; reflexivity|].
+  split; [rewrite ex_geom; cbn; repeat split; reflexivity|].
+  exact ex_geom_wf.
+Qed.
+
+(* put_rank_frame, instantiated: everything it promises holds of the computed world *)
+Example ex_put_rank := put_rank_frame ex_w 0 ex_f 0 false ex_a ex_r ex_put_accepted.
+
+(* ... and computed: return code, proposed numrecs 4, the four elements
+   (record 1 at 560+16, record 3 at 560+48; columns 0 and 2 at +0 and +4), a neighbour
+   element and the header untouched *)
+Example ex_put_rank_compute :
+  let '(w', rc, nn, part) := put_rank ex_w 0 ex_f 0 false ex_a in
+  rc = NC_NOERR /\ nn = Some 4 /\ part = true /\
+  dk_read (disk_of w' ex_f) 576 2 = put_elem ex_a 3 0 /\
+  dk_read (disk_of w' ex_f) 580 2 = put_elem ex_a 3 1 /\
+  dk_read (disk_of w' ex_f) 608 2 = put_elem ex_a 3 2 /\
+  dk_read (disk_of w' ex_f) 612 2 = put_elem ex_a 3 3 /\
+  dk_read (disk_of w' ex_f) 578 2 = dk_read (disk_of ex_w ex_f) 578 2 /\
+  dk_read (disk_of w' ex_f) 0 304 = dk_read (disk_of ex_w ex_f) 0 304 /\
+  dk_read (disk_of w' ex_f) 0 304 = encode_header (f_hdr ex_f).
+Proof. vm_compute. repeat split; reflexivity. Qed.
+
+(* the interpreter continues with this world and file state *)
+Definition ex_w1 : world := fst (indep_put ex_w 0 ex_f 0 ex_a).
+Definition ex_f1 : filest := indep_numrecs ex_f 0 (put_newrecs ex_f ex_a ex_r).
+
+Example ex_indep_put := indep_put_effect ex_w 0 ex_f 0 ex_a ex_r ex_put_accepted ex_file.
+
+Example ex_get_accepted_1 : sanity ex_f1 false true false ex_a = NC_NOERR.
+Proof. vm_compute; reflexivity. Qed.
+Example ex_get_accepted_2 : check_request ex_w1 ex_f1 0 true ex_a = (NC_NOERR, Some [ex_r]).
+Proof. vm_compute; reflexivity. Qed.
+Example ex_get_accepted_3 : ac_memt ex_a = acc_xt ex_f1 ex_a.
+Proof. vm_compute; reflexivity. Qed.
+Example ex_get_accepted_4 : form_lengths (ac_form ex_a) (length (g_shape (acc_geom ex_f1 ex_a))).
+Proof. vm_compute; repeat split; reflexivity. Qed.
+Example ex_get_accepted_5 : wf_geom (acc_geom ex_f1 ex_a).
+Proof.
+  destruct (acc_geom_indep_numrecs ex_f 0 (put_newrecs ex_f ex_a ex_r) ex_a) as (E & _).
+  unfold ex_f1. rewrite E. exact (proj1 ex_geom_wf).
+Qed.
+Example ex_get_accepted : get_accepted ex_w1 ex_f1 0 false ex_a ex_r.
+Proof. exact (conj ex_get_accepted_1 (conj ex_get_accepted_2 (conj eq_refl (conj ex_get_accepted_3 (conj ex_get_accepted_4 ex_get_accepted_5))))). Qed.
+
+(* get_after_put through indep_put_then_get *)
+Example ex_get_after_put :=
+  indep_put_then_get ex_w 0 ex_f 0 ex_a ex_r ex_w1 (snd (indep_put ex_w 0 ex_f 0 ex_a))
+    0 false ex_a ex_put_accepted ex_file (surjective_pairing _) eq_refl ex_get_accepted.
+
+Example ex_get_after_put_compute :
+  get_rank_op ex_w1 ex_f1 0 false ex_a =
+  (NC_NOERR, [THex (guard_bytes ++ [90; 99; 179; 39; 60; 97; 149; 37] ++ guard_bytes)]).
+Proof. vm_compute. reflexivity. Qed.
+
+(* another request on the same variable: get_vara_short of records 0..1, all 4 columns.
+   Elements (1,0) and (1,2) were written by the put; the other six were never written *)
+Definition ex_a' : access := mkacc 1 (FVara (Some [0; 0]) (Some [2; 4])) 3 false BTyped 0.
+Definition ex_r' : rreq := mkrreq [0; 0] [2; 4] None None.
+
+Example ex_get_accepted'_1 : sanity ex_f1 false true false ex_a' = NC_NOERR.
+Proof. vm_compute; reflexivity. Qed.
+Example ex_get_accepted'_2 : check_request ex_w1 ex_f1 0 true ex_a' = (NC_NOERR, Some [ex_r']).
+Proof. vm_compute; reflexivity. Qed.
+Example ex_get_accepted'_3 : ac_memt ex_a' = acc_xt ex_f1 ex_a'.
+Proof. vm_compute; reflexivity. Qed.
+Example ex_get_accepted'_4 : form_lengths (ac_form ex_a') (length (g_shape (acc_geom ex_f1 ex_a'))).
+Proof. vm_compute; repeat split; reflexivity. Qed.
+Example ex_get_accepted'_5 : wf_geom (acc_geom ex_f1 ex_a').
+Proof.
+  destruct (acc_geom_indep_numrecs ex_f 0 (put_newrecs ex_f ex_a ex_r) ex_a') as (E & _).
+  unfold ex_f1. rewrite E. assert (E2 : acc_geom ex_f ex_a' = acc_geom ex_f ex_a) by (vm_compute; reflexivity).
+  rewrite E2. exact (proj1 ex_geom_wf).
+Qed.
+Example ex_get_accepted' : get_accepted ex_w1 ex_f1 0 false ex_a' ex_r'.
+Proof. exact (conj ex_get_accepted'_1 (conj ex_get_accepted'_2 (conj eq_refl (conj ex_get_accepted'_3 (conj ex_get_accepted'_4 ex_get_accepted'_5))))). Qed.
+
+Example ex_sees_put : sees_put ex_w1 ex_f1 ex_a' ex_f ex_a ex_r (disk_of ex_w ex_f).
+Proof.
+  destruct ex_indep_put as (w3 & E & _ & Hd & _).
+  assert (Ew : ex_w1 = w3) by (unfold ex_w1; rewrite E; reflexivity).
+  destruct (acc_geom_indep_numrecs ex_f 0 (put_newrecs ex_f ex_a ex_r) ex_a') as (Eg & Ex & _).
+  unfold sees_put, ex_f1. rewrite Eg, Ex, Ew.
+  split; [vm_compute; reflexivity | split; [vm_compute; reflexivity | exact Hd]].
+Qed.
+
+Example ex_get_other :=
+  get_after_put_other ex_w ex_f 0 false ex_a ex_r (disk_of ex_w ex_f) ex_w1 ex_f1 0 false ex_a' ex_r'
+    ex_put_accepted ex_get_accepted' ex_sees_put.
+
+Example ex_get_other_compute :
+  get_rank_op ex_w1 ex_f1 0 false ex_a' =
+  (RC_ANY,
+   [THex (guard_bytes ++
+          [-1; -1; -1; -1; -1; -1; -1; -1; 90; 99; -1; -1; 179; 39; -1; -1] ++ guard_bytes)]).
+Proof. vm_compute. reflexivity. Qed.
+
+(* var1 (NULL count) and a scalar-free fixed variable through the same theorems:
+   put_var1_int a[2][3] *)
+Definition ex_a1 : access := mkacc 0 (FVar1 (Some [2; 3])) 4 false BTyped 11.
+Definition ex_r1 : rreq := mkrreq [2; 3] [1; 1] None None.
+
+Example ex_put_accepted1 : put_accepted ex_w ex_f 0 false ex_a1 ex_r1.
+Proof.
+  unfold put_accepted.
+  split; [split; [apply Z.leb_le | apply Z.ltb_lt]; vm_compute; reflexivity|].
+  split; [vm_compute; reflexivity|].
+  split; [vm_compute; reflexivity|].
+  split; [vm_compute; reflexivity|].
+  split; [vm_compute; reflexivity|].
+  apply (acc_geom_wf ex_f true true false ex_a1).
+  - vm_compute. reflexivity.
+  - exact ex_hdr_wf.
+  - vm_compute. reflexivity.
+  - vm_compute. reflexivity.
+  - assert (E : g_shape (acc_geom ex_f ex_a1) = [3; 4]) by (vm_compute; reflexivity).
+    rewrite E. cbn [dims_wf]. split; [lia | repeat constructor; lia].
+Qed.
+
+Example ex_put_rank1 := put_rank_frame ex_w 0 ex_f 0 false ex_a1 ex_r1 ex_put_accepted1.
+
+Print Assumptions put_rank_effect.
+Print Assumptions check_request_req_ok.
+Print Assumptions put_rank_frame.
+Print Assumptions put_stream_defined.
+Print Assumptions get_rank_op_typed.
+Print Assumptions get_after_put.
+Print Assumptions get_after_put_other.
+Print Assumptions indep_put_then_get.
+Print Assumptions geom_of_wf.
+Print Assumptions ex_get_other.
